@@ -45,10 +45,15 @@ class ObjRef(object):
 class InputSeq(object):
     """the input sequence of objects (only its length and the aliasing pattern matter)"""
 
-    def __init__(self, name, ident_fn=ident):
+    def __init__(self, name, ident_fn=ident, tag=None, ntags=2):
         self.name = name
         self.len = z3.Int("len_" + name)
         self.ident_fn = ident_fn
+        self.tag, self.ntags = tag, ntags     # tagged sequences: their objects may be stored together in one plain list
+
+    def code(self, idx):
+        """integer code of the object at position idx (distinct for distinct (sequence, position); never the code of None)"""
+        return idx * self.ntags + self.tag
 
     def get(self, i):
         return ObjRef(self, i)
@@ -203,6 +208,8 @@ class Interp(object):
                     # the class test of an input object: an uninterpreted predicate of its position
                     return z3.Function("isinstance[%s]<%s>" % (ast.unparse(node.args[1]), v.seq.name), I, B)(v.idx)
                 raise OutOfSubset("isinstance of a non-object")
+            if isinstance(f, ast.Name) and f.id == "range" and len(node.args) == 1:
+                return ("range", self.ev(node.args[0], st))
             if isinstance(f, ast.Name) and f.id == "id" and len(node.args) == 1:
                 v = self.ev(node.args[0], st)
                 if isinstance(v, ObjRef):
@@ -239,6 +246,11 @@ class Interp(object):
         if isinstance(it, (SList, InputSeq)) and isinstance(g.target, ast.Name):
             sub.env[g.target.id] = it.get(k)
             n = it.len
+        elif isinstance(it, tuple) and it and it[0] == "range" and isinstance(g.target, ast.Name):
+            n = it[1]
+            sub.env[g.target.id] = k
+            if isinstance(node.elt, ast.Constant) and node.elt.value is None:
+                return SList(n, z3.K(I, NONE_CODE))        # [None for _ in range(n)]
         else:
             raise OutOfSubset("comprehension over %r" % type(it))
         v = self.ev(node.elt, sub)
@@ -273,6 +285,8 @@ class Interp(object):
                     [(ast.unparse(target), z3.And(idx >= -base.len, idx < base.len))]
                 idx = z3.If(idx < 0, idx + base.len, idx)
                 val = v.idx if isinstance(v, ObjRef) else v
+                if isinstance(v, ObjRef) and base.of is None and getattr(v.seq, "tag", None) is not None:
+                    val = v.seq.code(v.idx)
                 st.env[target.value.id] = SList(base.len, z3.Store(base.arr, idx, val), base.of)
             else:
                 raise OutOfSubset("item assignment on %r" % type(base))
@@ -404,6 +418,10 @@ class Interp(object):
             a.pc.append(c)
             b.pc.append(z3.Not(c))
             return self.block(s.body, a) + self.block(s.orelse, b)
+        if isinstance(s, ast.Raise):
+            st = st.copy()
+            st.env["__raised"] = ast.unparse(s.exc.func) if isinstance(s.exc, ast.Call) else ast.unparse(s.exc) if s.exc is not None else "reraise"
+            return [(st, "raise")]
         if isinstance(s, ast.Continue):
             return [(st, "continue")]
         if isinstance(s, ast.Pass):
@@ -443,6 +461,108 @@ def loop_header(loop, interp, st):
             seq = interp.ev(n.args[0], st)
             return loop.target.id, None, seq
     raise OutOfSubset("loop header %s" % ast.unparse(loop.iter))
+
+
+NONE_CODE = z3.IntVal(-1)
+
+
+def zip_header(loop, interp, st):
+    """for a, b in zip(A, B): returns ({name: element of its sequence at position i}, length) or None"""
+    it = loop.iter
+    if isinstance(it, ast.Call) and isinstance(it.func, ast.Name) and it.func.id == "zip" and len(it.args) == 2 \
+            and isinstance(loop.target, ast.Tuple) and len(loop.target.elts) == 2 and all(isinstance(e, ast.Name) for e in loop.target.elts):
+        A, B_ = interp.ev(it.args[0], st), interp.ev(it.args[1], st)
+        if not all(isinstance(x, (SList, InputSeq)) for x in (A, B_)):
+            raise OutOfSubset("zip over %r, %r" % (type(A), type(B_)))
+        return {loop.target.elts[0].id: A, loop.target.elts[1].id: B_}, (A.len, B_.len)
+    return None
+
+
+class MultiLoopVC(object):
+    """obligations of a function whose top-level statements contain several loops, each cut at its own invariant; statements
+    between the loops are straight-line code with if / return / raise.  post(S, outcome, n_list) is checked on every exit."""
+
+    def __init__(self, fn, bind, invariants, post, name=None, definitions=(), requires=()):
+        self.fn = fn
+        self.fdef, self.src = get_function_ast(fn)
+        self.bind, self.invariants, self.post = bind, invariants, post
+        self.name = name or fn.__qualname__
+        self.definitions, self.requires = list(definitions), list(requires)
+        self.results = []
+        self.loops_cut = 0
+
+    def _rec(self, label, pc, goal):
+        status, detail = prove(pc, goal)
+        self.results.append((label, status, detail, str(goal)[:300]))
+
+    def run(self):
+        from .loopcut import assigned_names, mutated_names
+        interp = Interp(None)
+        st0 = State(self.bind(interp), pc=list(self.requires), facts=self.definitions)
+        live = [st0]
+        finished = []
+        k = 0
+        helper = LoopVC(self.fn, self.bind, None, None)
+        for s in self.fdef.body:
+            if not isinstance(s, ast.For):
+                nxt = []
+                for cur in live:
+                    for (s2, out) in interp.stmt(s, cur):
+                        if any(z3.is_false(z3.simplify(f)) for f in s2.pc):
+                            continue        # a branch whose condition is false outright
+                        (nxt if out == "normal" else finished).append(s2 if out == "normal" else (s2, out))
+                live = nxt
+                continue
+            inv = self.invariants[k]
+            k += 1
+            self.loops_cut += 1
+            nxt = []
+            for cur in live:
+                zh = zip_header(s, interp, cur)
+                if zh is None:
+                    raise OutOfSubset("loop header %s" % ast.unparse(s.iter))
+                binds, (n, n2) = zh
+                tag = "%s.loop%d" % (self.name, k)
+                self._rec(tag + ".zipped_sequences_have_equal_lengths", cur.pc + cur.facts, n == n2)
+                for label, f in inv(cur.env, z3.IntVal(0), n):
+                    self._rec("%s.inv_entry.%s" % (tag, label), cur.pc + cur.facts + [n >= 0], f)
+                changed = [x for x in assigned_names(s.body) if x not in binds]
+                for x, _ in mutated_names(s.body):
+                    if x not in changed:
+                        changed.append(x)
+
+                def havoc_state(i, cur=cur, changed=changed, inv=inv, n=n):
+                    st = cur.copy()
+                    for x in changed:
+                        if x in st.env:
+                            st.env[x] = helper._havoc_like(st.env[x], x)
+                    st.pc = list(cur.pc) + [n >= 0]
+                    for label, f in inv(st.env, i, n):
+                        st.pc.append(f)
+                    return st
+                i = fresh("i")
+                st = havoc_state(i)
+                st.pc += [i >= 0, i < n]
+                for nm, seq in binds.items():
+                    st.env[nm] = seq.get(i)
+                npaths = 0
+                for (s2, out) in interp.block(s.body, st):
+                    if out not in ("normal", "continue"):
+                        raise OutOfSubset("loop body exits with %s" % out)
+                    npaths += 1
+                    for label, f in inv(s2.env, i + 1, n):
+                        self._rec("%s.inv_preserved[path%d].%s" % (tag, npaths, label), s2.pc + s2.facts, f)
+                    for what, f in s2.env.get("__index_obligations", []):
+                        self._rec("%s.index_in_range[path%d].%s" % (tag, npaths, what), s2.pc + s2.facts, f)
+                nxt.append(havoc_state(n))
+            live = nxt
+        for cur in live:
+            finished.append((cur, "fallthrough"))
+        for idx, (cur, out) in enumerate(finished):
+            for label, f in self.post(cur.env, out):
+                self._rec("%s.post[%s#%d].%s" % (self.name, out, idx, label), cur.pc + cur.facts, f)
+        self.exits = [out for _, out in finished]
+        return self.results
 
 
 def prove(pc, goal, timeout_ms=20000):
